@@ -407,7 +407,7 @@ def gen_cases(tier, seed):
     out.append({'kind': 'fill', 'max': REAL_MAX, 'n': REAL_MAX - 2})     # the last tag: 2^24-2
     out.append({'kind': 'fill', 'max': REAL_MAX, 'n': REAL_MAX - 1})     # one more is refused
   # ---- suite (b)
-  for i in range(2500 if quick else 16000):
+  for i in range(1800 if quick else 16000):
     r = C.case_rng(seed, PID + 'mux', i)
     out.append(_gen_mux(r, r.choice([12, 25, 40, 70, 120])))
   for i in range(3 if quick else 12):
